@@ -28,6 +28,11 @@ def run(ctx):
         f["kind"] = "predicate"
     r2["failures"] += fails
     r2["evaluations"] += fx.check_create_config.last["cases"]
+    hist_fails = fx.check_creator_history(rng, 12 if tier == "quick" else 100)
+    for f in hist_fails:
+        f["kind"] = "predicate"
+    r2["failures"] += hist_fails
+    r2["evaluations"] += fx.check_creator_history.last["calls"]
     # numbers in every spelling Python's float() reads and the validator therefore accepts (scientific notation with and
     # without exponent sign, trailing point): the evaluator gives them their ordinary value, alone and inside an expression
     # (implementation-only: the Coq lexer models plain decimal numbers)
@@ -54,11 +59,66 @@ def run(ctx):
              "identifiers) ending in every expression tree of depth<=3 over {2, 0.5, min, max, mean, std} x {+,-,*,/,unary -}, "
              "printed minimally and fully parenthesised; value, pushed symbols and untouched prefix compared with the Coq "
              "model and with Python eval(); validator: all token strings of <=3 tokens over a 14-token alphabet; "
-             "create_config on synthetic constant-in-time NetCDF-3 grids vs the limit expressions on the in-box cells. "
+             "create_config on synthetic constant-in-time NetCDF-3 grids vs the limit expressions on the in-box cells; "
+             "call histories on ONE creator holding two files on different grids vs a fresh creator per call. "
              "non-trivial = default adapter rule")
     out["distribution"]["create_config"] = fx.check_create_config.last
+    out["distribution"]["create_config_history"] = fx.check_creator_history.last
     return out
 
 
+def _replay_create_config(payload):
+    """re-run a create_config failure: rebuild the synthetic NetCDF-3 file(s) of the case and ask again"""
+    import os
+    import shutil
+    import tempfile
+    import warnings
+
+    import numpy as np
+    import pandas as pd
+    import xarray as xr
+
+    from ioos_qc.config_creator import config_creator as cc
+    case = payload["case"]
+    tmp = tempfile.mkdtemp(prefix="fx_replay_")
+
+    def write(name, ncvar, g, day=15):
+        vals = np.array([[np.nan if v is None else v for v in row] for row in g["values"]], dtype=float)
+        time = pd.to_datetime([f"2001-{m:02d}-{day:02d}" for m in range(1, 13)])
+        path = os.path.join(tmp, name + ".nc")
+        xr.Dataset({ncvar: (("time", "lat", "lon"), np.broadcast_to(vals, (12,) + vals.shape).copy())},
+                   coords={"time": time, "lat": np.array(g["lat"], dtype=float),
+                           "lon": np.array(g["lon"], dtype=float)}).to_netcdf(path, engine="scipy")
+        return path
+
+    def ask(creator, vcfg):
+        try:
+            with warnings.catch_warnings():
+                warnings.simplefilter("ignore")
+                sec = creator.create_config(cc.QcVariableConfig(vcfg))[vcfg["variable"]]["qartod"]["gross_range_test"]
+            return [float(v) for v in (sec["suspect_span"][0], sec["suspect_span"][1], sec["fail_span"][0], sec["fail_span"][1])]
+        except Exception as e:  # noqa: BLE001
+            return "R:" + type(e).__name__
+    try:
+        with warnings.catch_warnings():
+            warnings.simplefilter("ignore")
+            if "grids" in case:
+                dsets = [{"name": n, "file_path": write(n, nc, case["grids"][v]), "variables": {v: nc}}
+                         for n, v, nc in (("one", "temp", "t_an"), ("two", "salt", "s_an"))]
+                shared = cc.QcConfigCreator(cc.CreatorConfig({"datasets": dsets}))
+                got = [ask(shared, c) for c in case["calls"]][-1]
+                want = ask(cc.QcConfigCreator(cc.CreatorConfig({"datasets": dsets})), case["calls"][-1])
+                return {"impl": got, "fresh_creator": want, "recorded_impl": payload.get("impl"), "errors": []}
+            path = write("clim", "t_an", case, case.get("time_day_of_month", 15))
+            creator = cc.QcConfigCreator(cc.CreatorConfig(
+                {"datasets": [{"name": "clim", "file_path": path, "variables": {"temp": "t_an"}}]}))
+            return {"impl": ask(creator, case["config"]), "want": payload.get("want"), "recorded_impl": payload.get("impl"),
+                    "errors": []}
+    finally:
+        shutil.rmtree(tmp, ignore_errors=True)
+
+
 def replay(payload):
+    if payload.get("function") == "QcConfigCreator.create_config":
+        return _replay_create_config(payload)
     return adapters.simple_replay({"eval_fx": fx.Fx(), "_validate_fx": fx.ValidateFx()}, payload)
